@@ -16,6 +16,12 @@ var inputSeeds = map[string]string{
 	"os.ReadFile":                         "the file cannot be read",
 	"io.ReadAll":                          "the underlying read fails",
 	"io.ReadFull":                         "the underlying read fails",
+	"io.Copy":                             "the underlying read (or the copy's write) fails",
+	"io.CopyN":                            "the underlying read (or the copy's write) fails",
+	"io.CopyBuffer":                       "the underlying read (or the copy's write) fails",
+	"(*bytes.Buffer).ReadFrom":            "the underlying read fails",
+	"io/ioutil.ReadAll":                   "the underlying read fails",
+	"io/ioutil.ReadFile":                  "the file cannot be read",
 	"(*bufio.Scanner).Err":                "the underlying read fails or a line exceeds the scanner's buffer",
 	"(*os.File).Read":                     "the underlying read fails",
 	"(*bufio.Reader).Read":                "the underlying read fails",
